@@ -34,7 +34,7 @@ func c05Class(o c04Obs) string {
 	if !o.Settled || o.Stuck != "" || o.Status != 3 {
 		return ""
 	}
-	bad := o.Reg || o.GConn != 0
+	bad := o.Reg || o.GConn != 0 || o.Extra != 0
 	var others int64
 	for _, c := range o.Chs {
 		others += int64(c.NSubs)
@@ -69,6 +69,53 @@ func TestVerifC05(t *testing.T) {
 		case 0:
 			return c04Plan{Name: "gate-timeout/genstamp", Key: "C05-genstamp-after-gate-timeout", NCh: 1,
 				Armed: []c04Gk{c04GkConnH, c04GkSubH, c04GkJoin}, Script: c05GenStamp, Finish: c05Finish}
+		case 1, 2:
+			// OUTSIDE THE MODEL (CNoModel, oracle only): connect-time server-side subscriptions
+			// (ConnectReply.Subscriptions) with presence; the connection is closed while the connect command
+			// is inside the subscription's AddPresence call; when the call returns the connect command finds
+			// the connection closed and must roll back hub entry AND presence entry.  i == 2: two channels.
+			subs := []c04ConnSub{{Ch: 0, Opts: c04Opts{Pres: true}}}
+			if i == 2 {
+				subs = append(subs, c04ConnSub{Ch: 1, Opts: c04Opts{Pres: true, JL: true}})
+			}
+			return c04Plan{Name: "connect-time-subs/close-during-connect", NCh: len(subs), NoModel: true, ConnSubs: subs,
+				Armed: []c04Gk{c04GkPresAdd}, Finish: c05Finish,
+				Script: func(e *c04Eng, r *rand.Rand) {
+					e.spawn(c04Op{Kind: "connect"}) // the subscriptions' goroutines park in AddPresence
+					e.spawn(c04Op{Kind: "close"})   // waits for the in-flight subscriptions
+					for k := 0; k < 4; k++ {
+						if p := e.parkOf(c04GkPresAdd); p != nil {
+							e.release(p, true)
+						}
+					}
+				}}
+		case 3, 5:
+			// OUTSIDE THE MODEL (CNoModel, oracle only): keyed tracking.  A shared-poll subscription tracks two
+			// keys; the asynchronous OnTrack authorisation is answered after the connection was closed
+			// (i == 3) or after the channel was unsubscribed (i == 5): no tracked key may stay registered
+			// in the shared poll manager (observation ob_extra).
+			closeFirst := i == 3
+			return c04Plan{Name: "keyed-track/answer-after-end", NCh: 1, NoModel: true, Keyed: true, Finish: c05Finish,
+				Script: func(e *c04Eng, r *rand.Rand) {
+					c04Connect(e)
+					e.spawn(c04Op{Kind: "subkeyed", Ch: 0})
+					e.spawn(c04Op{Kind: "track", Ch: 0})
+					if closeFirst {
+						e.spawn(c04Op{Kind: "close"})
+					} else {
+						e.spawn(c04Op{Kind: "unsubsrv", Ch: 0})
+					}
+					e.answerTrack(true)
+				}}
+		case 7:
+			// keyed tracking, the ordinary order: tracked keys are registered and removed by close
+			return c04Plan{Name: "keyed-track/then-close", NCh: 1, NoModel: true, Keyed: true, Finish: c05Finish,
+				Script: func(e *c04Eng, r *rand.Rand) {
+					c04Connect(e)
+					e.spawn(c04Op{Kind: "subkeyed", Ch: 0})
+					e.spawn(c04Op{Kind: "track", Ch: 0})
+					e.answerTrack(true)
+				}}
 		}
 		var p c04Plan
 		if i%4 == 0 {
